@@ -39,13 +39,7 @@ static unsigned long long NBYTES;
 /* an array of n bytes at byte-misalignment IN.misalign, exactly n bytes long */
 static char *alloc_array(unsigned long long n)
 {
-#ifdef BA_PROBE_FIXED
-	ASSUME(n == BA_PROBE_FIXED);
-	ASSUME(IN.misalign == BA_PROBE_MIS);
-	char *raw = malloc(BA_PROBE_FIXED + BA_PROBE_MIS);
-#else
 	char *raw = malloc(n + IN.misalign);
-#endif
 	ASSUME(raw != 0);
 #ifdef VERIF_NATIVE
 	/* content: the witness bytes repeated (the verifier leaves the array unconstrained) */
@@ -60,9 +54,6 @@ static void build_bitmap(void)
 {
 	LOAD_IN();
 	ASSUME(IN.start <= IN.end && IN.end <= IN.real_end);
-#ifdef BA_PROBE_START01
-	ASSUME(IN.start <= 1);
-#endif
 	ASSUME(IN.real_end - IN.start < BA_MAX_BITS);
 	ASSUME(IN.misalign < 8);
 	NBYTES = ((IN.real_end - IN.start) / 8) + 1;
